@@ -732,6 +732,71 @@ fn seek_by_case(fmt: Fmt, ch: u16, ctx: &mut Ctx) {
 			ctx.outcome(frames_hash(out));
 		}
 	}
+	// seek_to and seek_by issued between the same two callbacks: the stream continues where the loaded sound continues when it is
+	// given the same two commands (the loaded sound is the oracle for which of the two wins)
+	for &ahead in &[0usize, 64] {
+		for &d_frames in &[400i64, -80] {
+			for &p in &[1000usize, 3000] {
+				ctx.evals += 1;
+				ctx.count("runs: seek_to + seek_by in one interval", 1);
+				let d = d_frames as f64 / rate as f64;
+				let k = ahead + 400;
+				let detail = format!("{}: {} frames heard while the decoder is {} frames ahead, then seek_to(frame {}) and seek_by({} frames) before the next callback, {} frames rendered", spec.desc(), heard0, ahead, p, d_frames, k);
+				// where the loaded sound lands
+				let stat = catch(|| -> Option<usize> {
+					use kira::sound::SoundData;
+					let data = StaticSoundData::from_cursor(Cursor::new(bytes.clone())).ok()?;
+					let (mut sound, mut h) = data.into_sound().ok()?;
+					let info = MockInfoBuilder::new().build();
+					let dt = 1.0 / rate as f64;
+					for len in [heard0 - 1, 1] {
+						let mut o = vec![Frame::ZERO; len];
+						sound.on_start_processing();
+						sound.process(&mut o, dt, &info);
+					}
+					h.seek_to(p as f64 / rate as f64);
+					h.seek_by(d);
+					let mut o = vec![Frame::ZERO; 64];
+					sound.on_start_processing();
+					sound.process(&mut o, dt, &info);
+					(8..40).find_map(|j| locate(o[j], o[j + 1], p).map(|r| r - j))
+				});
+				let Ok(Some(stat_origin)) = stat else {
+					ctx.fail("MACHINERY: the loaded twin could not be located after its seeks :: seek_to + seek_by in one interval", detail);
+					continue;
+				};
+				let segs = [
+					Seg { seek_by: None, seek: None, steps: heard0 + ahead, render: heard0 - 1 },
+					Seg { seek_by: None, seek: None, steps: 0, render: 1 },
+					Seg { seek_by: Some(d), seek: Some(p), steps: k, render: k },
+				];
+				let obs = match catch(|| stream_play(&bytes, rate, 0, &segs)) {
+					Ok(o) => o,
+					Err(pn) => {
+						ctx.fail(format!("panic: {} :: seek_to + seek_by on a stream", pn), detail);
+						continue;
+					}
+				};
+				if obs.hung || obs.open_err.is_some() || obs.start_err.is_some() || !obs.errors.is_empty() {
+					ctx.fail("stream: seek_to + seek_by on a valid file hangs / is refused / reports a decode error", format!("{:?} {:?} {:?} hung={}; {}", obs.open_err, obs.start_err, obs.errors, obs.hung, detail));
+					continue;
+				}
+				let out = &obs.out[2];
+				// the frames of the last quarter of the rendering: consecutive file frames, continuing the loaded twin's line
+				let j0 = out.len() * 3 / 4;
+				let got = locate(out[j0], out[j0 + 1], stat_origin + j0);
+				let want = stat_origin as i64 + j0 as i64;
+				match got {
+					Some(r) if (r as i64 - want).abs() <= ahead as i64 + 4 => ctx.nontrivial_extra += 1,
+					_ => ctx.fail(
+						"stream: after seek_to and seek_by in one interval the stream does not continue where the loaded sound continues :: two seeks in one interval",
+						format!("rendered frame {} is file frame {:?}; the loaded sound, given the same commands, is at file frame {} there (+- the {} buffered frames + 4); {}", j0, got, want, ahead, detail),
+					),
+				}
+				ctx.outcome(frames_hash(out));
+			}
+		}
+	}
 }
 
 /// "after any sequence of seeks" on a stream that loops: the frames heard after the seek are the file's frames from the
